@@ -187,6 +187,12 @@ impl DependencyGraph {
             }
         }
 
+        #[cfg(feature = "salsa_verif")]
+        self.verif_emit(verif::Op::ReleaseTransferredBegin {
+            query: verif::key(database_key),
+            result: verif::res(wait_result),
+        });
+
         // If `database_key` is `c` and it has been transferred to `b` earlier, remove its entry.
         tracing::trace!(
             "unblock_runtimes_blocked_on_transferred_queries_owned_by({database_key:?}"
@@ -509,6 +515,8 @@ pub mod verif {
         Resumed { thread: String, result: u8 },
         ReleaseQuery { query: Key, result: u8 },
         ReleaseTransferredOwnedBy { query: Key, result: u8 },
+        /// Start of the operation that `ReleaseTransferredOwnedBy` ends.
+        ReleaseTransferredBegin { query: Key, result: u8 },
         UndoTransfer { query: Key },
         Transfer { query: Key, by_thread: String, new_owner: Key, new_owner_thread: String, thread_changed: bool },
         TransferEdgesUpdated { query: Key, new_owner_thread: String },
